@@ -1085,3 +1085,74 @@ func TestYAMLDecodeIsAFunctionOfTheText(t *testing.T) {
 		report(t, "yaml-decode-nondeterministic", d, fmt.Sprintf("%d of %d parses of the same server configuration text (inline certificate as a literal block) gave a different configuration, e.g. %s instead of %s", deviating, n, sample[0], first))
 	}
 }
+
+// ---- spellings of one transport against a real server -------------------------------------------------------------
+
+// TestUpstreamSpellingsMeanTheSameTransport: ws is documented as another spelling of http and wss of https. A client
+// whose upstream is spelled either way, against the same real server (which has a certificate, so the plain websocket
+// offers StartTLS and the TLS websocket is encrypted from the start), must end up with the same session: established,
+// with the same security the client reports, and with the application payload invisible to an observer on the carrier.
+func TestUpstreamSpellingsMeanTheSameTransport(t *testing.T) {
+	type observation struct {
+		Established bool   `json:"established"`
+		Secure      bool   `json:"client_reports_secure"`
+		Tech        string `json:"security"`
+		Clear       bool   `json:"payload_visible_on_the_carrier"`
+	}
+	marker := []byte("verif-c18-spelling-marker-0123456789")
+	observe := func(carrier, spelling string, mustSecure bool) (observation, bool) {
+		tgt := vlib.NewTarget("data", vlib.EchoHandler)
+		defer tgt.Close()
+		kp := vlib.ServerCertFor("match", "localhost")
+		p, err := vlib.StartPair(vlib.PairConfig{Carrier: carrier, ClientScheme: spelling, ServerCert: &kp, ClientInsecure: true, ViaRelay: true,
+			MustSecure: mustSecure, HostSpelling: "localhost",
+			Channels:  []vlib.ChannelSpec{{Name: "data", Target: tgt.URL()}},
+			Listeners: []vlib.ListenerSpec{{Channel: "data"}}})
+		if err != nil {
+			if vlib.IsBindError(err) {
+				vlib.Rec.Inconclusive("bind")
+				return observation{}, false
+			}
+			t.Fatalf("pair start (%s as %q): %v", carrier, spelling, err)
+		}
+		defer p.Close()
+		var o observation
+		if c, err := p.Dial("data"); err == nil {
+			c.SetDeadline(time.Now().Add(10 * time.Second))
+			c.Write(marker)
+			got, _ := vlib.ReadFullTimeout(c, len(marker), 10*time.Second)
+			o.Established = bytes.Equal(got, marker)
+			c.Close()
+		}
+		time.Sleep(20 * time.Millisecond)
+		up, down, _ := p.WireRecorded()
+		o.Clear = bytes.Contains(up, marker) || bytes.Contains(down, marker)
+		if cc := vlib.ClientConnOf(p.Client.Upstream.Data[0]); cc != nil {
+			o.Secure, o.Tech = cc.Secure(), cc.SecurityTech()
+		}
+		return o, true
+	}
+	for _, sp := range []struct{ carrier, alias string }{{vlib.CarHTTP, "ws"}, {vlib.CarHTTPS, "wss"}} {
+		for _, must := range []bool{false, true} {
+			canonical, ok1 := observe(sp.carrier, "", must)
+			aliased, ok2 := observe(sp.carrier, sp.alias, must)
+			if !ok1 || !ok2 {
+				continue
+			}
+			desc := map[string]interface{}{"position": "upstream", "scheme": sp.alias, "same_as": sp.carrier, "client_requires_security": must, "canonical": canonical, "aliased": aliased}
+			vlib.Rec.Case(fmt.Sprintf("spelling %s=%s must=%v", sp.alias, sp.carrier, must), true, []string{"position:upstream", "spelling-against-real-server", "scheme:" + sp.alias}, func() interface{} { return desc })
+			msg := ""
+			switch {
+			case !canonical.Established || canonical.Clear:
+				msg = fmt.Sprintf("%s upstream against a server with a certificate: %+v", sp.carrier, canonical)
+			case aliased.Clear:
+				msg = fmt.Sprintf("upstream spelled %s:// carried the payload in clear although the server offers TLS (%+v; spelled %s://: %+v)", sp.alias, aliased, sp.carrier, canonical)
+			case aliased != canonical:
+				msg = fmt.Sprintf("upstream spelled %s:// gives another session than the same address spelled %s://: %+v vs %+v", sp.alias, sp.carrier, aliased, canonical)
+			}
+			if msg != "" {
+				report(t, "upstream-spelling="+sp.alias, desc, msg)
+			}
+		}
+	}
+}
